@@ -36,15 +36,21 @@ def find_peaks(data, min_peak_distance, min_peak_height):
 
 @_nb.njit()
 def _find_peaks_numba_core(data, maximas, min_peak_distance):
+    kept = _np.ones(len(maximas), dtype=_np.bool_)
     for i in range(len(maximas)):
+        if not kept[i]:
+            continue
         p = i
         while p < (len(maximas) - 1) and abs(maximas[i] - maximas[p + 1]) < min_peak_distance:
             p += 1
+            if not kept[p]:
+                continue
             if data[maximas[i]] < data[maximas[p]]:
-                maximas[i] = -1
+                kept[i] = False
+                break
             else:
-                maximas[p] = -1
-    return maximas[maximas > -1]
+                kept[p] = False
+    return maximas[kept]
 
 
 class Direction(_Enum):
